@@ -268,19 +268,25 @@ class Aggregation:
         return value
 
     def __dask_tokenize__(self):
-        return (
-            Aggregation,
-            self.name,
-            self.preprocess,
-            self.reduction_type,
-            self.numpy,
-            self.chunk,
-            self.combine,
-            self.finalize,
-            self.fill_value,
-            self.dtype,
-            self.finalize_kwargs,
-            self.min_count,
+        from dask.base import normalize_token
+
+        # normalize: dask hashes str() of what is returned here, and the repr of an ndarray
+        # (e.g. finalize_kwargs["q"]) is rounded and elided
+        return normalize_token(
+            (
+                Aggregation,
+                self.name,
+                self.preprocess,
+                self.reduction_type,
+                self.numpy,
+                self.chunk,
+                self.combine,
+                self.finalize,
+                self.fill_value,
+                self.dtype,
+                self.finalize_kwargs,
+                self.min_count,
+            )
         )
 
     def __repr__(self) -> str:
